@@ -205,7 +205,31 @@ def c13(run):
     run.rc = run.finish(assumptions=BAND_ASSUME, exhaustive=True)
 
 
-PROPS = {"C01": c01, "C12": c12, "C13": c13, "C05": c05, "C02": c02, "C03": c03, "C04": c04, "C06": c06, "C07": c07, "C08": c08}
+def c14(run):
+    run.design_check("ChannelPlanModel", workers=8, env={"VERIF_GEN": run.tier, "VERIF_GENMODE": "plan"})
+    t = run.record("chplan", "plan", n=T(run, 70, 1400))
+    run.validate("chplan", t, "Trace_chplan", label="(V) histories x structured/random device sets, all 14 bands", chunk=T(run, 400, 4000))
+    t = run.record("chplan", T(run, "planexh10", "planexh"), n=T(run, 4, 8))
+    run.validate("chplan", t, "Trace_chplan", label="(V) ALL device subsets of <=%s-channel plans" % T(run, 10, 16), chunk=T(run, 800, 8000))
+    run.exhaustive.append("all 2^n device subsets of the generated <=%s-channel plans" % T(run, 10, 16))
+    run.require_kinds("chplan/plan")
+    run.rc = run.finish(assumptions=BAND_ASSUME + ["device sets are subsets of the plan's indices", "LinkADRReq semantics (ChMaskCntl blocks; 6/7 for US915/AU915) in spec/lorawan/ChannelPlan.tla"])
+
+
+def c15(run):
+    run.design_check("ChannelPlanModel", workers=8, env={"VERIF_GEN": run.tier, "VERIF_GENMODE": "history"})
+    t = run.record("chplan", "history", n=T(run, 56, 1400))
+    run.validate("chplan", t, "Trace_chplan", label="(V) operation histories with arbitrary int arguments, all 14 bands", chunk=T(run, 150, 1500), group_on="reset")
+    t = run.record("chplan", "xlayer")
+    run.validate("chplan", t, "Trace_chplan", label="(V) MAC-layer encodability of band outputs")
+    t = run.record("band", "tables")
+    run.validate("band", t, "Trace_band", label="(V) channel accessors over index ranges incl. negatives", chunk=7)
+    run.require_kinds("chplan/op", "chplan/reset", "chplan/cflist", "chplan/xlayer", "band/bandcfg")
+    run.rc = run.finish(assumptions=BAND_ASSUME + ["AddChannel frequencies are multiples of 100 Hz inside the band's range (an arbitrary user frequency that no LoRaWAN field can carry is DON'T-CARE)",
+                                                  "CFList expectation is not asserted while a zero-frequency custom slot exists"])
+
+
+PROPS = {"C01": c01, "C14": c14, "C15": c15, "C12": c12, "C13": c13, "C05": c05, "C02": c02, "C03": c03, "C04": c04, "C06": c06, "C07": c07, "C08": c08}
 
 
 def replay(run, path):
